@@ -149,10 +149,138 @@ def Bare (u : U) : Prop := ∀ (o : Nat) (ob : Obj), u.objs[o]? = some ob → ob
   ob.elem = none ∧ ob.key = none ∧ ob.under = none ∧ ob.recv = none ∧ ob.members = [] ∧ ob.params = [] ∧
   ob.results = [] ∧ ob.len = 0 ∧ ob.hasSig = false ∧ ob.variadic = false ∧ ob.src = none ∧ ob.methods = []
 
+/-- what the methods phase of the defined type `g'` left in object `ob`: unless it found methods already there (the object
+of an interface, described by `Desc`), the method table is the defined type's method set -/
+def MDesc (F : Facts) (v2 : Bool) (u : U) (ob : Obj) (g' : Nat) : Prop :=
+  ∃ und ms tps ou, F.node g' = .named und ms tps ou ∧ (ob.nskip = false → MethodsMatch F v2 u ob.methods ms)
+
+theorem MDesc.mono {F : Facts} {v2 : Bool} {u u' : U} {ob : Obj} {g' : Nat} (h : MDesc F v2 u ob g') (hg : Grows u u') :
+    MDesc F v2 u' ob g' := by
+  obtain ⟨und, ms, tps, ou, hn, hm⟩ := h
+  exact ⟨und, ms, tps, ou, hn, fun hs => (hm hs).mono hg⟩
+
+/-- the methods half of the description invariant: an object without a kind has had no methods phase; an object whose
+methods phase ran for a defined type (and is not still in it: `P`) carries that type's methods -/
+structure MethInv (F : Facts) (v2 : Bool) (u : U) (P : List Nat) : Prop where
+  fresh : ∀ (o : Nat) (ob : Obj), u.objs[o]? = some ob → ob.kind = .unknown → ob.nsrc = none
+  mdesc : ∀ (o : Nat) (ob : Obj) (g' : Nat), u.objs[o]? = some ob → ob.nsrc = some g' → o ∈ P ∨ MDesc F v2 u ob g'
+
+theorem MethInv.weaken {F : Facts} {v2 : Bool} {u : U} {P : List Nat} (o : Nat) (h : MethInv F v2 u P) : MethInv F v2 u (o :: P) :=
+  ⟨h.fresh, fun x ob g hx hs => by
+    rcases h.mdesc x ob g hx hs with hp | hd
+    · exact .inl (List.mem_cons_of_mem _ hp)
+    · exact .inr hd⟩
+
+/-- the owner leaves the stack: its methods phase has not run, or what it left is as described -/
+theorem MethInv.pop {F : Facts} {v2 : Bool} {u : U} {P : List Nat} {o : Nat} (h : MethInv F v2 u (o :: P))
+    (ho : ∀ (ob : Obj) (g' : Nat), u.objs[o]? = some ob → ob.nsrc = some g' → o ∈ P ∨ MDesc F v2 u ob g') : MethInv F v2 u P :=
+  ⟨h.fresh, fun x ob g hx hs => by
+    by_cases hox : o = x
+    · subst hox; exact ho ob g hx hs
+    · rcases h.mdesc x ob g hx hs with hp | hd
+      · rcases List.mem_cons.mp hp with rfl | hp
+        · exact absurd rfl hox
+        · exact .inl hp
+      · exact .inr hd⟩
+
+theorem MethInv.same {F : Facts} {v2 : Bool} {u u' : U} {P : List Nat} (ho : u'.objs = u.objs) (hg : Grows u u')
+    (h : MethInv F v2 u P) : MethInv F v2 u' P :=
+  ⟨fun o ob hob hk => by rw [ho] at hob; exact h.fresh o ob hob hk, fun o ob g hob hs => by
+    rw [ho] at hob
+    rcases h.mdesc o ob g hob hs with hp | hd
+    · exact .inl hp
+    · exact .inr (hd.mono hg)⟩
+
+/-- appending an object whose methods phase has not run -/
+theorem MethInv.newObj {F : Facts} {v2 : Bool} {u : U} {P : List Nat} (ob0 : Obj) (hg : Grows u (u.newObj ob0).1)
+    (h0 : ob0.nsrc = none) (h : MethInv F v2 u P) : MethInv F v2 (u.newObj ob0).1 P := by
+  refine ⟨?_, ?_⟩
+  · intro o ob hob hk
+    have hob' : (u.objs ++ [ob0])[o]? = some ob := hob
+    rcases getElem?_append_new _ _ _ _ hob' with hold | ⟨_, rfl⟩
+    · exact h.fresh o ob hold hk
+    · exact h0
+  · intro o ob g hob hs
+    have hob' : (u.objs ++ [ob0])[o]? = some ob := hob
+    rcases getElem?_append_new _ _ _ _ hob' with hold | ⟨_, rfl⟩
+    · rcases h.mdesc o ob g hold hs with hp | hd
+      · exact .inl hp
+      · exact .inr (hd.mono hg)
+    · rw [h0] at hs; cases hs
+
+/-- an update that keeps the ghost fields and the method table of the object, and does not take its kind away -/
+theorem MethInv.modify_keep {F : Facts} {v2 : Bool} {u : U} {o : Nat} {f : Obj → Obj} {P : List Nat}
+    (hg : Grows u (u.modify o f))
+    (hf : ∀ ob : Obj, (f ob).nsrc = ob.nsrc ∧ (f ob).nskip = ob.nskip ∧ (f ob).methods = ob.methods ∧
+      ((f ob).kind = .unknown → ob.kind = .unknown))
+    (h : MethInv F v2 u P) : MethInv F v2 (u.modify o f) P := by
+  refine ⟨?_, ?_⟩
+  · intro x ob hx hk
+    by_cases hox : o = x
+    · subst hox
+      cases h0 : u.objs[o]? with
+      | none =>
+        have : (u.modify o f).objs[o]? = none := by simp [U.modify, h0]
+        rw [this] at hx; cases hx
+      | some ob0 =>
+        rw [modify_get_eq h0] at hx; cases hx
+        rw [(hf ob0).1]; exact h.fresh o ob0 h0 ((hf ob0).2.2.2 hk)
+    · rw [modify_get_ne hox] at hx; exact h.fresh x ob hx hk
+  · intro x ob g hx hs
+    by_cases hox : o = x
+    · subst hox
+      cases h0 : u.objs[o]? with
+      | none =>
+        have : (u.modify o f).objs[o]? = none := by simp [U.modify, h0]
+        rw [this] at hx; cases hx
+      | some ob0 =>
+        rw [modify_get_eq h0] at hx; cases hx
+        obtain ⟨e1, e2, e3, _⟩ := hf ob0
+        rcases h.mdesc o ob0 g h0 (by rw [← e1]; exact hs) with hp | hd
+        · exact .inl hp
+        · right
+          obtain ⟨und, ms, tps, ou, hn, hm⟩ := hd.mono hg
+          exact ⟨und, ms, tps, ou, hn, fun hsk => by rw [e3]; exact hm (by rw [← e2]; exact hsk)⟩
+    · rw [modify_get_ne hox] at hx
+      rcases h.mdesc x ob g hx hs with hp | hd
+      · exact .inl hp
+      · exact .inr (hd.mono hg)
+
+/-- any update of an object that is on the stack and keeps (or gets) a kind -/
+theorem MethInv.modify_pending {F : Facts} {v2 : Bool} {u : U} {o : Nat} {f : Obj → Obj} {P : List Nat}
+    (hg : Grows u (u.modify o f)) (hk : ∀ ob : Obj, u.objs[o]? = some ob → (f ob).kind ≠ .unknown) (hP : o ∈ P)
+    (h : MethInv F v2 u P) : MethInv F v2 (u.modify o f) P := by
+  refine ⟨?_, ?_⟩
+  · intro x ob hx hkx
+    by_cases hox : o = x
+    · subst hox
+      cases h0 : u.objs[o]? with
+      | none =>
+        have : (u.modify o f).objs[o]? = none := by simp [U.modify, h0]
+        rw [this] at hx; cases hx
+      | some ob0 =>
+        rw [modify_get_eq h0] at hx; cases hx
+        exact absurd hkx (hk ob0 h0)
+    · rw [modify_get_ne hox] at hx; exact h.fresh x ob hx hkx
+  · intro x ob g hx hs
+    by_cases hox : o = x
+    · subst hox; exact .inl hP
+    · rw [modify_get_ne hox] at hx
+      rcases h.mdesc x ob g hx hs with hp | hd
+      · exact .inl hp
+      · exact .inr (hd.mono hg)
+
 /-- every filled object that is not still being filled (`P`: the owners on the call stack) is described by its node -/
 structure DInv (F : Facts) (v2 : Bool) (u : U) (P : List Nat) : Prop where
   bare : Bare u
   desc : ∀ (o : Nat) (ob : Obj) (g : Nat), u.objs[o]? = some ob → ob.src = some g → o ∈ P ∨ Desc F v2 u ob g
+  meth : MethInv F v2 u P
+
+theorem DInv.weaken {F : Facts} {v2 : Bool} {u : U} {P : List Nat} (o : Nat) (h : DInv F v2 u P) : DInv F v2 u (o :: P) :=
+  ⟨h.bare, fun x ob g hx hs => by
+    rcases h.desc x ob g hx hs with hp | hd
+    · exact .inl (List.mem_cons_of_mem _ hp)
+    · exact .inr hd, h.meth.weaken o⟩
 
 /-- objects that have a kind are not touched -/
 def Frozen (u u' : U) : Prop := ∀ (o : Nat) (ob : Obj), u.objs[o]? = some ob → ob.kind ≠ .unknown → u'.objs[o]? = some ob
@@ -215,6 +343,48 @@ theorem type_new (bt : List Builtin) (u : U) (n : Name) (o : Nat) (ob : Obj) (h 
         · exact .inl hold
         · exact .inr ⟨rfl, rfl, rfl, rfl, rfl, rfl, rfl, rfl, rfl, rfl, rfl, rfl⟩
 
+/-- the objects after `u.Type(n)`: the old ones, or an object whose methods phase has not run -/
+theorem type_new_ghost (bt : List Builtin) (u : U) (n : Name) (o : Nat) (ob : Obj) (h : (U.type bt u n).1.objs[o]? = some ob) :
+    u.objs[o]? = some ob ∨ ob.nsrc = none := by
+  unfold U.type at h
+  have hp := (package_objs u n.pkg).1
+  cases hl : AL.lookup n u.types with
+  | some x => simp only [hl] at h; exact .inl h
+  | none =>
+    simp only [hl] at h
+    cases hb : (if n.pkg.isEmpty = true then bt.find? (fun b => b.key = n.name) else none) with
+    | none =>
+      simp only [hb, U.newObj] at h
+      rw [hp] at h
+      rcases getElem?_append_new _ _ _ _ h with hold | ⟨_, rfl⟩
+      · exact .inl hold
+      · exact .inr rfl
+    | some b =>
+      simp only [hb] at h
+      cases hbo : AL.lookup b.var (u.package n.pkg).builtinObjs with
+      | some x => simp only [hbo] at h; rw [hp] at h; exact .inl h
+      | none =>
+        simp only [hbo, U.newObj] at h
+        rw [hp] at h
+        rcases getElem?_append_new _ _ _ _ h with hold | ⟨_, rfl⟩
+        · exact .inl hold
+        · exact .inr rfl
+
+theorem MethInv.type {F : Facts} {v2 : Bool} {bt : List Builtin} {u : U} {P : List Nat} (n : Name) (hi : WalkInv.Inv bt u)
+    (h : MethInv F v2 u P) : MethInv F v2 (U.type bt u n).1 P := by
+  have hg := (type_inv (bt := bt) n hi).2.1
+  refine ⟨?_, ?_⟩
+  · intro o ob hob hk
+    rcases type_new_ghost bt u n o ob hob with hold | hn
+    · exact h.fresh o ob hold hk
+    · exact hn
+  · intro o ob g hob hs
+    rcases type_new_ghost bt u n o ob hob with hold | hn
+    · rcases h.mdesc o ob g hold hs with hp | hd
+      · exact .inl hp
+      · exact .inr (hd.mono hg)
+    · rw [hn] at hs; cases hs
+
 theorem type_frozen (bt : List Builtin) (u : U) (n : Name) : Frozen u (U.type bt u n).1 :=
   fun o ob h _ => type_keeps bt u n o ob h
 
@@ -222,7 +392,7 @@ theorem type_frozen (bt : List Builtin) (u : U) (n : Name) : Frozen u (U.type bt
 theorem type_dinv {F : Facts} {v2 : Bool} {bt : List Builtin} {u : U} {P : List Nat} (n : Name) (hi : WalkInv.Inv bt u)
     (h : DInv F v2 u P) : DInv F v2 (U.type bt u n).1 P := by
   have hg := (type_inv (bt := bt) n hi).2.1
-  refine ⟨?_, ?_⟩
+  refine ⟨?_, ?_, MethInv.type n hi h.meth⟩
   · intro o ob hob hk
     rcases type_new bt u n o ob hob with hold | hf
     · exact h.bare o ob hold hk
@@ -244,7 +414,7 @@ theorem modify_frozenExcept (u : U) (o : Nat) (f : Obj → Obj) : FrozenExcept o
 theorem modify_dinv {F : Facts} {v2 : Bool} {u : U} {o : Nat} {f : Obj → Obj} {P : List Nat}
     (hg : Grows u (u.modify o f)) (hk : ∀ ob : Obj, u.objs[o]? = some ob → (f ob).kind ≠ .unknown) (hP : o ∈ P)
     (h : DInv F v2 u P) : DInv F v2 (u.modify o f) P := by
-  refine ⟨?_, ?_⟩
+  refine ⟨?_, ?_, h.meth.modify_pending hg hk hP⟩
   · intro x ob hx hkx
     by_cases hox : o = x
     · subst hox
@@ -318,6 +488,28 @@ theorem runKids_desc {F : Facts} {v2 : Bool} {bt : List Builtin} {w : U → Nat 
         exact fe3 x obx hxo h2 hkx
       · exact .cons ⟨fun hun => (r1 hun).mono (g2.trans g3), fun n hn hsh => (g2.trans g3).idx _ _ (r1' n hn hsh)⟩ hall
 
+theorem setter_ghost (set : Setter) (ob : Obj) (x : Nat) : (set.apply ob x).nsrc = ob.nsrc ∧ (set.apply ob x).nskip = ob.nskip := by
+  cases set <;> exact ⟨rfl, rfl⟩
+
+theorem applySetters_ghost (ob : Obj) : ∀ (kids : List (Nat × Option Name × Setter)) (xs : List Nat),
+    (applySetters ob kids xs).nsrc = ob.nsrc ∧ (applySetters ob kids xs).nskip = ob.nskip := by
+  intro kids
+  induction kids generalizing ob with
+  | nil => intro xs; simp [applySetters]
+  | cons k ks ih =>
+    intro xs
+    obtain ⟨c, un, set⟩ := k
+    cases xs with
+    | nil => simp [applySetters]
+    | cons x xs =>
+      simp only [applySetters]
+      have h := ih (set.apply ob x) xs
+      exact ⟨h.1.trans (setter_ghost set ob x).1, h.2.trans (setter_ghost set ob x).2⟩
+
+theorem markFields_ghost (gn : GNode) (ob : Obj) :
+    (markFields gn ob).nsrc = ob.nsrc ∧ (markFields gn ob).nskip = ob.nskip ∧ (markFields gn ob).methods = ob.methods := by
+  cases gn <;> exact ⟨rfl, rfl, rfl⟩
+
 /-! ## `fill` -/
 
 theorem applySetters_meta (ob : Obj) : ∀ (kids : List (Nat × Option Name × Setter)) (xs : List Nat),
@@ -373,10 +565,7 @@ theorem fill_desc {F : Facts} {v2 : Bool} {bt : List Builtin} {w : U → Nat →
     have d2 : DInv F v2 ((U.type bt u n).1.modify (U.type bt u n).2 (fun ob => markFields gn { ob with kind := K, src := some g }))
         ((U.type bt u n).2 :: P) := by
       refine modify_dinv g2 (fun ob' _ => by rw [(markFields_meta gn _).2.1]; exact hK) List.mem_cons_self ?_
-      exact ⟨d1.bare, fun x obx gx hx hs => by
-        rcases d1.desc x obx gx hx hs with hp | hdd
-        · exact .inl (List.mem_cons_of_mem _ hp)
-        · exact .inr hdd⟩
+      exact d1.weaken _
     cases hr : runKids w (U.type bt u n).2 ((U.type bt u n).1.modify (U.type bt u n).2 (fun ob => markFields gn { ob with kind := K, src := some g })) kids with
     | none => simp [hr] at hf
     | some u3 =>
@@ -386,7 +575,14 @@ theorem fill_desc {F : Facts} {v2 : Bool} {bt : List Builtin} {w : U → Nat →
       have hk2 : (markFields gn { ob1 with kind := K, src := some g }).kind ≠ .unknown := by
         rw [(markFields_meta gn _).2.1]; exact hK
       obtain ⟨d3, fe3, g3, ocs, hlen, hobf, hall⟩ := runKids_desc hw hd _ P kids _ _ _ h2 d2 hob2 hk2 hr
-      refine ⟨⟨d3.bare, ?_⟩, ?_, hidx⟩
+      -- the methods phase of the object has not run: it had no kind a moment ago
+      have hmeth3 : MethInv F v2 u3 P := d3.meth.pop (fun ob g' hx hs => by
+        rw [hobf] at hx; cases hx
+        rw [(applySetters_ghost _ kids ocs).1, (markFields_ghost gn _).1] at hs
+        have : ob1.nsrc = none := d1.meth.fresh _ ob1 hob1 hunk1
+        simp only at hs
+        rw [this] at hs; cases hs)
+      refine ⟨⟨d3.bare, ?_, hmeth3⟩, ?_, hidx⟩
       · intro x obx gx hx hs
         by_cases hox : (U.type bt u n).2 = x
         · subst hox
@@ -733,57 +929,11 @@ theorem applySetters_methods_same (v2 : Bool) : ∀ (ms : List GMethod) (ob : Ob
       exact SameShape.trans (b := (Setter.method m.name).apply ob x) ⟨rfl, rfl, rfl, rfl, rfl, rfl, rfl, rfl, rfl, rfl, rfl, rfl⟩
         (ih ((Setter.method m.name).apply ob x) xs)
 
-theorem DInv.weaken {F : Facts} {v2 : Bool} {u : U} {P : List Nat} (o : Nat) (h : DInv F v2 u P) : DInv F v2 u (o :: P) :=
-  ⟨h.bare, fun x ob g hx hs => by
-    rcases h.desc x ob g hx hs with hp | hd
-    · exact .inl (List.mem_cons_of_mem _ hp)
-    · exact .inr hd⟩
-
-/-- the methods phase keeps the description invariant; only the object it is applied to changes -/
-theorem addMethods_desc {F : Facts} {v2 : Bool} {bt : List Builtin} {w : U → Nat → Option Name → Option (U × Nat)}
-    (hw : WalkOK bt w) (hd : WalkDescOK F v2 bt w) (u : U) (o : Nat) (ms : List GMethod) (P : List Nat)
-    (u' : U) (o' : Nat) (hi : WalkInv.Inv bt u) (hdi : DInv F v2 u P) (hkn : Known u o)
-    (hf : addMethods v2 w u o ms = some (u', o')) :
-    DInv F v2 u' P ∧ FrozenExcept o u u' := by
-  unfold addMethods at hf
-  by_cases hempty : (u.obj o).methods.isEmpty = true
-  · rw [if_pos hempty] at hf
-    cases hr : runKids w o u (methodKids v2 ms) with
-    | none => simp [hr] at hf
-    | some u3 =>
-      simp only [hr, Option.some.injEq, Prod.mk.injEq] at hf
-      obtain ⟨rfl, rfl⟩ := hf
-      obtain ⟨ob0, hob0, hk0⟩ := hkn
-      obtain ⟨d3, fe3, g3, ocs, _, hobf, _⟩ := runKids_desc hw hd o P (methodKids v2 ms) u ob0 u3 hi (hdi.weaken o) hob0 hk0 hr
-      refine ⟨⟨d3.bare, ?_⟩, fe3⟩
-      intro x obx gx hx hs
-      by_cases hox : o = x
-      · subst hox
-        rw [hobf] at hx; cases hx
-        have hsame := applySetters_methods_same v2 ms ob0 ocs
-        have hs0 : ob0.src = some gx := by rw [hsame.2.2.2.2.2.2.2.2.2.2.2]; exact hs
-        rcases hdi.desc o ob0 gx hob0 hs0 with hp | hdd
-        · exact .inl hp
-        · -- the methods phase only runs on an object that has no methods yet
-          have hm0 : ob0.methods = [] := by
-            rw [obj_of_get hob0] at hempty
-            simpa using hempty
-          exact .inr (Desc.congr hsame (.inr hm0) (hdd.mono g3))
-      · rcases d3.desc x obx gx hx hs with hp | hdd
-        · rcases List.mem_cons.mp hp with rfl | hp
-          · exact absurd rfl hox
-          · exact .inl hp
-        · exact .inr hdd
-  · rw [if_neg hempty] at hf
-    simp only [Option.some.injEq, Prod.mk.injEq] at hf
-    obtain ⟨rfl, rfl⟩ := hf
-    exact ⟨hdi, fun _ _ _ h _ => h⟩
-
 /-- an update of one object that changes nothing `Desc` looks at -/
-theorem modify_same_dinv {F : Facts} {v2 : Bool} {u : U} {o : Nat} {f : Obj → Obj} {P : List Nat}
+theorem modify_same_dinv_core {F : Facts} {v2 : Bool} {u : U} {o : Nat} {f : Obj → Obj} {P : List Nat}
     (hg : Grows u (u.modify o f)) (hsame : ∀ ob : Obj, SameShape ob (f ob)) (hmeth : ∀ ob : Obj, (f ob).methods = ob.methods)
-    (h : DInv F v2 u P) : DInv F v2 (u.modify o f) P := by
-  refine ⟨?_, ?_⟩
+    (hm : MethInv F v2 (u.modify o f) P) (h : DInv F v2 u P) : DInv F v2 (u.modify o f) P := by
+  refine ⟨?_, ?_, hm⟩
   · intro x ob hx hkx
     by_cases hox : o = x
     · subst hox
@@ -817,6 +967,117 @@ theorem modify_same_dinv {F : Facts} {v2 : Bool} {u : U} {o : Nat} {f : Obj → 
       · exact .inl hp
       · exact .inr (hdd.mono hg)
 
+theorem modify_same_dinv {F : Facts} {v2 : Bool} {u : U} {o : Nat} {f : Obj → Obj} {P : List Nat}
+    (hg : Grows u (u.modify o f)) (hsame : ∀ ob : Obj, SameShape ob (f ob)) (hmeth : ∀ ob : Obj, (f ob).methods = ob.methods)
+    (hghost : ∀ ob : Obj, (f ob).nsrc = ob.nsrc ∧ (f ob).nskip = ob.nskip)
+    (h : DInv F v2 u P) : DInv F v2 (u.modify o f) P :=
+  modify_same_dinv_core hg hsame hmeth
+    (h.meth.modify_keep hg (fun ob => ⟨(hghost ob).1, (hghost ob).2, hmeth ob, fun hk => by rw [(hsame ob).1]; exact hk⟩)) h
+
+/-- recording the ghost fields of the methods phase in an object that has a kind: the object goes on the stack -/
+theorem modify_ghost_dinv {F : Facts} {v2 : Bool} {u : U} {o : Nat} {g : Nat} {b : Bool} {P : List Nat}
+    (hg : Grows u (u.modify o (fun ob => { ob with nsrc := some g, nskip := b }))) (hkn : Known u o)
+    (h : DInv F v2 u P) : DInv F v2 (u.modify o (fun ob => { ob with nsrc := some g, nskip := b })) (o :: P) := by
+  obtain ⟨ob0, hob0, hk0⟩ := hkn
+  exact modify_same_dinv_core hg (fun ob => ⟨rfl, rfl, rfl, rfl, rfl, rfl, rfl, rfl, rfl, rfl, rfl, rfl⟩) (fun _ => rfl)
+    ((h.meth.weaken o).modify_pending hg (fun ob' hob' => by rw [hob0] at hob'; cases hob'; exact hk0) List.mem_cons_self)
+    (h.weaken o)
+
+/-- the methods phase keeps the description invariant – and establishes its methods half for the object it runs on: the
+method table becomes the defined type's method set (unless the object, an interface's, has methods already) -/
+theorem addMethods_desc {F : Facts} {v2 : Bool} {bt : List Builtin} {w : U → Nat → Option Name → Option (U × Nat)}
+    (hw : WalkOK bt w) (hd : WalkDescOK F v2 bt w) (u : U) (o : Nat) (ms : List GMethod) {g : Nat} (P : List Nat)
+    {und ou : Nat} {tps : List (Str × Nat)} (hn : F.node g = .named und ms tps ou)
+    (hwm : (ms.map (·.name)).Nodup ∧ ∀ m ∈ ms, ∃ K kids, shape v2 (F.node m.sig) = some (K, kids))
+    (u' : U) (o' : Nat) (hi : WalkInv.Inv bt u) (hdi : DInv F v2 u P) (hkn : Known u o)
+    (hf : addMethods v2 w u o ms g = some (u', o')) :
+    DInv F v2 u' P ∧ FrozenExcept o u u' ∧ ∃ ob' : Obj, u'.objs[o]? = some ob' ∧ ob'.nsrc = some g := by
+  unfold addMethods at hf
+  obtain ⟨ob0, hob0, hk0⟩ := hkn
+  by_cases hempty : (u.obj o).methods.isEmpty = true
+  · rw [if_pos hempty] at hf
+    have hm0 : ob0.methods = [] := by
+      rw [obj_of_get hob0] at hempty
+      simpa using hempty
+    obtain ⟨i1, g1⟩ := modify_inv (o := o) (ghost_goodUpdate u o g false) hi
+    have d1 : DInv F v2 (u.modify o (fun ob => { ob with nsrc := some g, nskip := false })) (o :: P) :=
+      modify_ghost_dinv g1 ⟨ob0, hob0, hk0⟩ hdi
+    have hob1 := modify_get_eq (f := fun ob : Obj => { ob with nsrc := some g, nskip := false }) hob0
+    cases hr : runKids w o (u.modify o (fun ob => { ob with nsrc := some g, nskip := false })) (methodKids v2 ms) with
+    | none => simp [hr] at hf
+    | some u3 =>
+      simp only [hr, Option.some.injEq, Prod.mk.injEq] at hf
+      obtain ⟨rfl, rfl⟩ := hf
+      obtain ⟨d3, fe3, g3, ocs, _, hobf, hall⟩ := runKids_desc hw hd o P (methodKids v2 ms) _ _ u3 i1 d1 hob1 hk0 hr
+      -- the methods half for the owner: every method of the defined type, nothing else
+      have hmeth3 : MethInv F v2 u3 P := d3.meth.pop (fun ob g' hx hs => by
+        rw [hobf] at hx; cases hx
+        right
+        rw [(applySetters_ghost _ _ ocs).1] at hs
+        simp only [Option.some.injEq] at hs
+        subst hs
+        refine ⟨und, ms, tps, ou, hn, fun _ => ?_⟩
+        obtain ⟨a1, a2⟩ := applySetters_methods (F := F) (v2 := v2) (u := u3) ms
+          ({ ob0 with nsrc := some g, nskip := false } : Obj) ocs hwm.1 hwm.2 hall
+        refine ⟨a1, fun k r hl => ?_⟩
+        by_cases hex : ∃ m ∈ ms, m.name = k
+        · exact hex
+        · exfalso
+          have hno : ∀ m ∈ ms, m.name ≠ k := fun m hm e => hex ⟨m, hm, e⟩
+          rw [a2 k hno] at hl
+          simp only at hl
+          rw [hm0] at hl
+          simp [AL.lookup] at hl)
+      refine ⟨⟨d3.bare, ?_, hmeth3⟩, ?_, ⟨_, hobf, by rw [(applySetters_ghost _ _ ocs).1]⟩⟩
+      · intro x obx gx hx hs
+        by_cases hox : o = x
+        · subst hox
+          rw [hobf] at hx; cases hx
+          have hsame := applySetters_methods_same v2 ms ({ ob0 with nsrc := some g, nskip := false } : Obj) ocs
+          have hs0 : ob0.src = some gx := by
+            have := hsame.2.2.2.2.2.2.2.2.2.2.2
+            simp only at this
+            rw [this]; exact hs
+          rcases hdi.desc o ob0 gx hob0 hs0 with hp | hdd
+          · exact .inl hp
+          · -- the methods phase only runs on an object that has no methods yet
+            have hdd1 : Desc F v2 u3 ({ ob0 with nsrc := some g, nskip := false } : Obj) gx :=
+              Desc.congr (a := ob0) ⟨rfl, rfl, rfl, rfl, rfl, rfl, rfl, rfl, rfl, rfl, rfl, rfl⟩ (.inl rfl) (hdd.mono (g1.trans g3))
+            exact .inr (Desc.congr hsame (.inr hm0) hdd1)
+        · rcases d3.desc x obx gx hx hs with hp | hdd
+          · rcases List.mem_cons.mp hp with rfl | hp
+            · exact absurd rfl hox
+            · exact .inl hp
+          · exact .inr hdd
+      · intro x ob hxo hx hkx
+        have hx1 : (u.modify o (fun ob => { ob with nsrc := some g, nskip := false })).objs[x]? = some ob := by
+          rw [modify_get_ne (Ne.symm hxo)]; exact hx
+        exact fe3 x ob hxo hx1 hkx
+  · rw [if_neg hempty] at hf
+    simp only [Option.some.injEq, Prod.mk.injEq] at hf
+    obtain ⟨rfl, rfl⟩ := hf
+    obtain ⟨_, g1⟩ := modify_inv (o := o) (ghost_goodUpdate u o g true) hi
+    have d1 : DInv F v2 (u.modify o (fun ob => { ob with nsrc := some g, nskip := true })) (o :: P) :=
+      modify_ghost_dinv g1 ⟨ob0, hob0, hk0⟩ hdi
+    have hob1 := modify_get_eq (f := fun ob : Obj => { ob with nsrc := some g, nskip := true }) hob0
+    refine ⟨⟨d1.bare, ?_, d1.meth.pop (fun ob g' hx hs => by
+      rw [hob1] at hx; cases hx
+      simp only [Option.some.injEq] at hs
+      subst hs
+      exact .inr ⟨und, ms, tps, ou, hn, fun hsk => by simp at hsk⟩)⟩, modify_frozenExcept u o _, ⟨_, hob1, rfl⟩⟩
+    intro x obx gx hx hs
+    by_cases hox : o = x
+    · subst hox
+      rw [hob1] at hx; cases hx
+      rcases hdi.desc o ob0 gx hob0 hs with hp | hdd
+      · exact .inl hp
+      · exact .inr (Desc.congr (a := ob0) ⟨rfl, rfl, rfl, rfl, rfl, rfl, rfl, rfl, rfl, rfl, rfl, rfl⟩ (.inl rfl) (hdd.mono g1))
+    · rcases d1.desc x obx gx hx hs with hp | hdd
+      · rcases List.mem_cons.mp hp with rfl | hp
+        · exact absurd rfl hox
+        · exact .inl hp
+      · exact .inr hdd
+
 /-! ## `walkType` -/
 
 /-- the facts are those of go/types: the underlying node of a defined type is a basic/named/map/slice node (alias rule) or
@@ -825,8 +1086,9 @@ structure WellFormed (F : Facts) (v2 : Bool) : Prop where
   under : ∀ g und ms tps ou, F.node g = .named und ms tps ou →
     (isAliasUnder (F.node und) = true ∨ ∃ K kids, shape v2 (F.node und) = some (K, kids)) ∧
     (isAliasUnder (F.node und) = false → (v2 && isStructOrIface (F.node und)) = true → ∃ K kids, shape v2 (F.node ou) = some (K, kids))
-  /-- the methods of an interface have distinct names and their signatures are signature nodes -/
-  methods : ∀ g ms, F.node g = .iface ms → (ms.map (·.name)).Nodup ∧ ∀ m ∈ ms, ∃ K kids, shape v2 (F.node m.sig) = some (K, kids)
+  /-- the methods of an interface or of a defined type have distinct names and their signatures are unnamed type nodes -/
+  methods : ∀ g ms, (F.node g = .iface ms ∨ ∃ und tps ou, F.node g = .named und ms tps ou) →
+    (ms.map (·.name)).Nodup ∧ ∀ m ∈ ms, ∃ K kids, shape v2 (F.node m.sig) = some (K, kids)
 
 theorem frozen_of_except {u1 u2 u3 : U} {x : Nat} (h1 : Frozen u1 u2) (h2 : FrozenExcept x u2 u3)
     (hx : ∀ ob : Obj, u1.objs[x]? = some ob → ob.kind = .unknown) : Frozen u1 u3 := by
@@ -840,9 +1102,9 @@ theorem lookup_unique {α β} [DecidableEq α] {k : α} {m : List (α × β)} {a
 
 /-- appending a filled object that its node describes -/
 theorem newObj_dinv {F : Facts} {v2 : Bool} {u : U} {P : List Nat} (ob0 : Obj) (hg : Grows u (u.newObj ob0).1)
-    (hk : ob0.kind ≠ .unknown) (hd : ∀ g, ob0.src = some g → Desc F v2 (u.newObj ob0).1 ob0 g)
+    (hk : ob0.kind ≠ .unknown) (hd : ∀ g, ob0.src = some g → Desc F v2 (u.newObj ob0).1 ob0 g) (h0 : ob0.nsrc = none)
     (h : DInv F v2 u P) : DInv F v2 (u.newObj ob0).1 P := by
-  refine ⟨?_, ?_⟩
+  refine ⟨?_, ?_, h.meth.newObj ob0 hg h0⟩
   · intro o ob hob hko
     have hob' : (u.objs ++ [ob0])[o]? = some ob := hob
     rcases getElem?_append_new _ _ _ _ hob' with hold | ⟨_, rfl⟩
@@ -885,7 +1147,7 @@ theorem runKids_drop_desc {F : Facts} {v2 : Bool} {bt : List Builtin} {w : U →
       obtain ⟨d1, f1, _, _⟩ := hd u c none u1 oc P hi hdi hwc
       obtain ⟨i2, g2⟩ := modify_inv (o := o) (setter_goodUpdate u1 o .drop oc p1.good) p1.inv
       have d2 : DInv F v2 (u1.modify o (fun ob => Setter.drop.apply ob oc)) P :=
-        modify_same_dinv g2 (fun ob => SameShape.refl ob) (fun _ => rfl) d1
+        modify_same_dinv g2 (fun ob => SameShape.refl ob) (fun _ => rfl) (fun _ => ⟨rfl, rfl⟩) d1
       obtain ⟨d3, f3⟩ := ih _ _ i2 d2 hr
       refine ⟨d3, ?_⟩
       intro x ob hx hkx
@@ -903,7 +1165,16 @@ theorem runKids_neutral_desc {F : Facts} {v2 : Bool} {bt : List Builtin} {w : U 
     (hr : runKids w o u kids = some u') : DInv F v2 u' P ∧ FrozenExcept o u u' := by
   obtain ⟨ob0, hob0, hk0⟩ := hkn
   obtain ⟨d3, fe3, g3, ocs, _, hobf, _⟩ := runKids_desc hw hd o P kids u ob0 u' hi (hdi.weaken o) hob0 hk0 hr
-  refine ⟨⟨d3.bare, ?_⟩, fe3⟩
+  have hmeth3 : MethInv F v2 u' P := d3.meth.pop (fun ob g' hx hs => by
+    rw [hobf] at hx; cases hx
+    rw [(applySetters_ghost ob0 kids ocs).1] at hs
+    rcases hdi.meth.mdesc o ob0 g' hob0 hs with hp | hdd
+    · exact .inl hp
+    · right
+      obtain ⟨und, ms, tps, ou, hn, hm⟩ := hdd.mono g3
+      exact ⟨und, ms, tps, ou, hn, fun hsk => by
+        rw [hmeths ob0 ocs]; exact hm (by rw [← (applySetters_ghost ob0 kids ocs).2]; exact hsk)⟩)
+  refine ⟨⟨d3.bare, ?_, hmeth3⟩, fe3⟩
   intro x obx gx hx hs
   by_cases hox : o = x
   · subst hox
@@ -976,7 +1247,7 @@ theorem walk_desc (bt : List Builtin) (F : Facts) (v2 : Bool) (hwf : WellFormed 
       have d1 : DInv F v2 (u.newObj { name := useName.getD (nameOf v2 (F.str g)), kind := .typeParam, src := some g }).1 P :=
         newObj_dinv _ g1 (by simp) (fun g' hg' => by
           simp only [Option.some.injEq] at hg'; subst hg'
-          unfold Desc; simp only [hn]) hdi
+          unfold Desc; simp only [hn]) rfl hdi
       have e : u.newObj { name := useName.getD (nameOf v2 (F.str g)), kind := .typeParam, src := some g } = (u', o) := hw
       rw [e] at d1 o1
       refine ⟨d1, ?_, fun hun => .tparam hn ⟨_, o1, rfl, by subst hun; rfl⟩, (fun _ _ hsh => by obtain ⟨_, _, hh⟩ := hsh; simp [shape] at hh)⟩
@@ -1061,8 +1332,14 @@ theorem walk_desc (bt : List Builtin) (F : Facts) (v2 : Bool) (hwf : WellFormed 
             obtain ⟨h3, g3⟩ := runKids_inv ihw _ _ _ _ h2 hr
             obtain ⟨d3, fe3, _, ocs, hlen, hobf, hall⟩ := runKids_desc ihw ih _ P [(und, none, .under)] _ _ _ h2 d2 hob2 (by simp) hr
             -- pop the owner: its underlying type is stored
+            have hmeth3 : MethInv F v2 u3 P := d3.meth.pop (fun ob g' hx hs => by
+              rw [hobf] at hx; cases hx
+              rw [(applySetters_ghost _ _ ocs).1] at hs
+              have : ob1.nsrc = none := d1.meth.fresh _ ob1 hob1 hunk1
+              simp only at hs
+              rw [this] at hs; cases hs)
             have d3' : DInv F v2 u3 P := by
-              refine ⟨d3.bare, ?_⟩
+              refine ⟨d3.bare, ?_, hmeth3⟩
               intro x obx gx hx hs
               by_cases hox : (U.type bt u (nameOf v2 (F.str g))).2 = x
               · subst hox
@@ -1085,7 +1362,7 @@ theorem walk_desc (bt : List Builtin) (F : Facts) (v2 : Bool) (hwf : WellFormed 
             have hknown2 : Known ((U.type bt u (nameOf v2 (F.str g))).1.modify (U.type bt u (nameOf v2 (F.str g))).2 (fun ob => { ob with kind := .alias, src := some g }))
                 (U.type bt u (nameOf v2 (F.str g))).2 := ⟨_, hob2, by simp⟩
             have hknown : Known u3 (U.type bt u (nameOf v2 (F.str g))).2 := hknown2.mono g3
-            obtain ⟨d4, fe4⟩ := addMethods_desc ihw ih u3 _ ms P u' o h3 d3' hknown hw
+            obtain ⟨d4, fe4, _⟩ := addMethods_desc ihw ih u3 _ ms P hn (hwf.methods g ms (.inr ⟨_, _, _, hn⟩)) u' o h3 d3' hknown hw
             refine ⟨d4, ?_, fun _ => hbyname, (fun _ _ hsh => by obtain ⟨_, _, hh⟩ := hsh; simp [shape] at hh)⟩
             have fA : Frozen u u3 := by
               refine frozen_of_except (x := (U.type bt u (nameOf v2 (F.str g))).2) f1 ?_ (unk_in_u u _ hunk)
@@ -1130,7 +1407,7 @@ theorem walk_desc (bt : List Builtin) (F : Facts) (v2 : Bool) (hwf : WellFormed 
                     simp only [refs, List.map_nil, List.append_nil, List.mem_append] at hr ⊢
                     exact .inl hr)⟩) i3
                 have d4 : DInv F v2 (u3.modify o3 (fun ob => { ob with tparams := [] })) P :=
-                  modify_same_dinv g4 (fun ob => ⟨rfl, rfl, rfl, rfl, rfl, rfl, rfl, rfl, rfl, rfl, rfl, rfl⟩) (fun _ => rfl) d3
+                  modify_same_dinv g4 (fun ob => ⟨rfl, rfl, rfl, rfl, rfl, rfl, rfl, rfl, rfl, rfl, rfl, rfl⟩) (fun _ => rfl) (fun _ => ⟨rfl, rfl⟩) d3
                 have fB : Frozen u1 (u3.modify o3 (fun ob => { ob with tparams := [] })) :=
                   frozen_of_except f3 (modify_frozenExcept u3 o3 _) (by rw [e3]; exact unk_in_u u1 n' hunk)
                 cases hr5 : runKids (fun u c un => walk bt F v2 fuel u c un) o3 (u3.modify o3 (fun ob => { ob with tparams := [] }))
@@ -1141,7 +1418,7 @@ theorem walk_desc (bt : List Builtin) (F : Facts) (v2 : Bool) (hwf : WellFormed 
                   obtain ⟨i5, g5⟩ := runKids_inv ihw o3 _ _ _ i4 hr5
                   obtain ⟨d5, fe5⟩ := runKids_neutral_desc ihw ih _ o3 _ P (applySetters_tparams_same tps) (applySetters_tparams_methods tps) u5 i4 d4 (k3.mono g4) hr5
                   have fC : Frozen u1 u5 := frozen_of_except fB fe5 (by rw [e3]; exact unk_in_u u1 n' hunk)
-                  obtain ⟨d6, fe6⟩ := addMethods_desc ihw ih u5 o3 ms P u' o i5 d5 ((k3.mono g4).mono g5) hw
+                  obtain ⟨d6, fe6, _⟩ := addMethods_desc ihw ih u5 o3 ms P hn (hwf.methods g ms (.inr ⟨_, _, _, hn⟩)) u' o i5 d5 ((k3.mono g4).mono g5) hw
                   exact ⟨d6, fr1.trans (frozen_of_except fC fe6 (by rw [e3]; exact unk_in_u u1 n' hunk)), fun _ => hbyname, (fun _ _ hsh => by obtain ⟨_, _, hh⟩ := hsh; simp [shape] at hh)⟩
         · simp only [hs, Bool.false_eq_true, if_false] at hw
           by_cases hk : (U.type bt u (nameOf v2 (F.str g))).1.kind (U.type bt u (nameOf v2 (F.str g))).2 ≠ .unknown
@@ -1156,7 +1433,7 @@ theorem walk_desc (bt : List Builtin) (F : Facts) (v2 : Bool) (hwf : WellFormed 
               obtain ⟨u3, o3⟩ := p
               simp only [hw2] at hw
               obtain ⟨d3, f3, i3, k3, e3⟩ := flatten u _ und u3 o3 hi hdi hshape hw2
-              obtain ⟨d5, fe5⟩ := addMethods_desc ihw ih u3 o3 ms P u' o i3 d3 k3 hw
+              obtain ⟨d5, fe5, _⟩ := addMethods_desc ihw ih u3 o3 ms P hn (hwf.methods g ms (.inr ⟨_, _, _, hn⟩)) u' o i3 d3 k3 hw
               exact ⟨d5, frozen_of_except f3 fe5 (by rw [e3]; exact unk_in_u u _ hunk), fun _ => hbyname, (fun _ _ hsh => by obtain ⟨_, _, hh⟩ := hsh; simp [shape] at hh)⟩
     | _ =>
       -- the unnamed type nodes: `fill` with the node's shape
@@ -1168,7 +1445,7 @@ theorem walk_desc (bt : List Builtin) (F : Facts) (v2 : Bool) (hwf : WellFormed 
         simp only [hs] at hw
         exact hw
       obtain ⟨d, f, l⟩ := fill_desc ihw ih u _ g (F.node g) K (shape_kind_ne v2 _ K kids hs) kids P
-        (fun u3 ob ocs hfr hk hl hall => shape_match g K kids hs (hwf.methods g) u3 ob ocs hfr hk hl hall) u' o hi hdi hw'
+        (fun u3 ob ocs hfr hk hl hall => shape_match g K kids hs (fun ms h => hwf.methods g ms (.inl h)) u3 ob ocs hfr hk hl hall) u' o hi hdi hw'
       refine ⟨d, f, fun hun => ?_, fun n hun _ => by subst hun; exact l⟩
       subst hun
       have hreg : regName F v2 g = nameOf v2 (F.str g) := regName_other (by intro a b c d h; rw [hn] at h; cases h)
@@ -1182,7 +1459,7 @@ def Full (bt : List Builtin) (F : Facts) (v2 : Bool) (u : U) : Prop := WalkInv.I
 
 theorem dinv_of_same {F : Facts} {v2 : Bool} {u u' : U} {P : List Nat} (ho : u'.objs = u.objs) (hg : Grows u u')
     (h : DInv F v2 u P) : DInv F v2 u' P := by
-  refine ⟨?_, ?_⟩
+  refine ⟨?_, ?_, h.meth.same ho hg⟩
   · intro o ob hob hk; rw [ho] at hob; exact h.bare o ob hob hk
   · intro o ob g hob hs
     rw [ho] at hob
@@ -1193,8 +1470,10 @@ theorem dinv_of_same {F : Facts} {v2 : Bool} {u u' : U} {P : List Nat} (ho : u'.
 /-- an update of an object that has a kind and no source node (a declaration object) -/
 theorem modify_nosrc_dinv {F : Facts} {v2 : Bool} {u : U} {o : Nat} {f : Obj → Obj} {P : List Nat}
     (hg : Grows u (u.modify o f)) (hf : ∀ ob : Obj, u.objs[o]? = some ob → (f ob).kind ≠ .unknown ∧ (f ob).src = none)
+    (hkeep : ∀ ob : Obj, (f ob).nsrc = ob.nsrc ∧ (f ob).nskip = ob.nskip ∧ (f ob).methods = ob.methods ∧
+      ((f ob).kind = .unknown → ob.kind = .unknown))
     (h : DInv F v2 u P) : DInv F v2 (u.modify o f) P := by
-  refine ⟨?_, ?_⟩
+  refine ⟨?_, ?_, h.meth.modify_keep hg hkeep⟩
   · intro x ob hx hkx
     by_cases hox : o = x
     · subst hox
@@ -1219,7 +1498,7 @@ theorem modify_nosrc_dinv {F : Facts} {v2 : Bool} {u : U} {o : Nat} {f : Obj →
 
 /-- the objects after `u.Function(n)` etc.: the old ones, or one new declaration object -/
 theorem decl_new (u : U) (d : Decl) (n : Name) (o : Nat) (ob : Obj) (h : (u.decl d n).1.objs[o]? = some ob) :
-    u.objs[o]? = some ob ∨ (ob.kind = .declarationOf ∧ ob.src = none) := by
+    u.objs[o]? = some ob ∨ (ob.kind = .declarationOf ∧ ob.src = none ∧ ob.nsrc = none) := by
   have hp := (package_objs u n.pkg).1
   cases d <;> (
     unfold U.decl at h
@@ -1230,12 +1509,12 @@ theorem decl_new (u : U) (d : Decl) (n : Name) (o : Nat) (ob : Obj) (h : (u.decl
       rw [hp] at h
       rcases getElem?_append_new _ _ _ _ h with hold | ⟨_, rfl⟩
       · exact .inl hold
-      · exact .inr ⟨rfl, rfl⟩)
+      · exact .inr ⟨rfl, rfl, rfl⟩)
 
 theorem decl_dinv {F : Facts} {v2 : Bool} {bt : List Builtin} {u : U} {P : List Nat} (d : Decl) (n : Name) (hi : WalkInv.Inv bt u)
     (h : DInv F v2 u P) : DInv F v2 (u.decl d n).1 P := by
   have hg := (decl_inv (bt := bt) d n hi).2.1
-  refine ⟨?_, ?_⟩
+  refine ⟨?_, ?_, ?_, ?_⟩
   · intro o ob hob hk
     rcases decl_new u d n o ob hob with hold | hnew
     · exact h.bare o ob hold hk
@@ -1245,7 +1524,17 @@ theorem decl_dinv {F : Facts} {v2 : Bool} {bt : List Builtin} {u : U} {P : List 
     · rcases h.desc o ob g hold hs with hp | hd
       · exact .inl hp
       · exact .inr (hd.mono hg)
-    · rw [hnew.2] at hs; cases hs
+    · rw [hnew.2.1] at hs; cases hs
+  · intro o ob hob hk
+    rcases decl_new u d n o ob hob with hold | hnew
+    · exact h.meth.fresh o ob hold hk
+    · exact hnew.2.2
+  · intro o ob g hob hs
+    rcases decl_new u d n o ob hob with hold | hnew
+    · rcases h.meth.mdesc o ob g hold hs with hp | hd
+      · exact .inl hp
+      · exact .inr (hd.mono hg)
+    · rw [hnew.2.2] at hs; cases hs
 
 theorem addDecl_full {bt : List Builtin} (F : Facts) (v2 : Bool) (hwf : WellFormed F v2) (fuel : Nat) (u : U)
     (d : Decl) (n : Name) (ty : Nat) (cv : Option Str) (u' : U) (h : Full bt F v2 u)
@@ -1268,11 +1557,12 @@ theorem addDecl_full {bt : List Builtin} (F : Facts) (v2 : Bool) (hwf : WellForm
             | (have := hd.1; rw [hk] at this; cases this)
             | (rw [hk] at hd; cases hd)
             | exact hd.elim
-    · exact hnew.2
+    · exact hnew.2.1
   obtain ⟨h2, g2⟩ := modify_inv (o := (u.decl d n).2) (f := fun ob => { ob with kind := .declarationOf })
     (fun ob' hob' => ⟨rfl, fun _ => by rw [hob] at hob'; cases hob'; exact hk.symm, fun r hr => .inl hr⟩) h1
   have d2 : DInv F v2 ((u.decl d n).1.modify (u.decl d n).2 (fun ob => { ob with kind := .declarationOf })) [] :=
-    modify_nosrc_dinv g2 (fun ob' hob' => by rw [hob] at hob'; cases hob'; exact ⟨by simp, hsrc⟩) d1
+    modify_nosrc_dinv g2 (fun ob' hob' => by rw [hob] at hob'; cases hob'; exact ⟨by simp, hsrc⟩)
+      (fun _ => ⟨rfl, rfl, rfl, fun hh => by cases hh⟩) d1
   cases hw : walk bt F v2 fuel ((u.decl d n).1.modify (u.decl d n).2 (fun ob => { ob with kind := .declarationOf })) ty none with
   | none => simp [hw] at hf
   | some p =>
@@ -1297,7 +1587,8 @@ theorem addDecl_full {bt : List Builtin} (F : Facts) (v2 : Bool) (hwf : WellForm
         · exact .inl (.inl (.inl (.inr hr)))
         · exact .inl (.inl (.inr hr))
         · exact .inl (.inr hr)⟩) p3.inv
-    exact modify_nosrc_dinv g4 (fun ob' hob' => by rw [hob3] at hob'; cases hob'; exact ⟨by simp, hsrc⟩) d3
+    exact modify_nosrc_dinv g4 (fun ob' hob' => by rw [hob3] at hob'; cases hob'; exact ⟨by simp, hsrc⟩)
+      (fun _ => ⟨rfl, rfl, rfl, fun hh => hh⟩) d3
 
 theorem addObj_full {bt : List Builtin} (F : Facts) (v2 : Bool) (hwf : WellFormed F v2) (fuel : Nat) (u : U)
     (ob : GObj) (u' : U) (h : Full bt F v2 u) (hf : addObj bt F v2 fuel u ob = some u') : Full bt F v2 u' := by
@@ -1350,7 +1641,8 @@ theorem scanPkg_full {bt : List Builtin} (F : Facts) (v2 : Bool) (hwf : WellForm
     exact full_of_same a' b' c' d' h2
 
 theorem full_empty (bt : List Builtin) (F : Facts) (v2 : Bool) : Full bt F v2 {} :=
-  ⟨inv_empty bt, ⟨fun o ob h => by simp at h, fun o ob g h => by simp at h⟩⟩
+  ⟨inv_empty bt, ⟨fun o ob h => by simp at h, fun o ob g h => by simp at h,
+    ⟨fun o ob h => by simp at h, fun o ob g h => by simp at h⟩⟩⟩
 
 theorem visitV2_full (w : World) (hwf : WellFormed w.facts w.v2) :
     ∀ (n : Nat) (st st' : LState) (path : Str), Full w.bt w.facts w.v2 st.u →
